@@ -104,6 +104,7 @@ type Ctx struct {
 	real   chan struct{}
 	dl     time.Time
 	hasDL  bool
+	kids   []*Ctx
 }
 
 func (c *Ctx) Deadline() (time.Time, bool) { return c.dl, c.hasDL }
@@ -131,12 +132,27 @@ func (c *Ctx) cancel(err error, byClock bool) {
 		c.done.closed = true
 		c.done.closeVC = release(S.cur)
 	}
+	for _, k := range c.kids {
+		k.cancel(err, byClock)
+	}
 }
 
 // WithCancel returns a scheduler-owned cancellable context. cancel is a scheduling point.
 func WithCancel(parent context.Context) (*Ctx, func()) {
 	cur()
 	c := &Ctx{parent: parent, done: MakeChan[struct{}](0), real: make(chan struct{})}
+	if parent != nil {
+		if p, ok := parent.Value(ctxKey{}).(*Ctx); ok {
+			if p.err != nil {
+				c.cancel(p.err, false)
+			} else {
+				p.kids = append(p.kids, c)
+			}
+			if p.hasDL {
+				c.dl, c.hasDL = p.dl, true
+			}
+		}
+	}
 	return c, func() {
 		if S == nil || S.aborting {
 			return
@@ -149,9 +165,29 @@ func WithCancel(parent context.Context) (*Ctx, func()) {
 // WithTimeout returns a context that expires at now+d of virtual time.
 func WithTimeout(parent context.Context, d time.Duration) (*Ctx, func()) {
 	c, cancel := WithCancel(parent)
-	c.dl, c.hasDL = Epoch.Add(time.Duration(S.now)+d), true
+	dl := Epoch.Add(time.Duration(S.now) + d)
+	if !c.hasDL || dl.Before(c.dl) {
+		c.dl, c.hasDL = dl, true
+	}
 	S.addEvent(S.now+int64(d), "ctx-deadline", func() { c.cancel(context.DeadlineExceeded, true) })
 	return c, cancel
+}
+
+// CtxWithCancel / CtxWithTimeout / CtxWithDeadline replace context.WithCancel / WithTimeout /
+// WithDeadline inside rewritten packages (same signatures), so that contexts derived by the code
+// under test live on the virtual clock too.
+func CtxWithCancel(parent context.Context) (context.Context, context.CancelFunc) {
+	c, f := WithCancel(parent)
+	return c, f
+}
+
+func CtxWithTimeout(parent context.Context, d time.Duration) (context.Context, context.CancelFunc) {
+	c, f := WithTimeout(parent, d)
+	return c, f
+}
+
+func CtxWithDeadline(parent context.Context, t time.Time) (context.Context, context.CancelFunc) {
+	return CtxWithTimeout(parent, t.Sub(Epoch.Add(time.Duration(S.now))))
 }
 
 // CancelByClock ends the context now; for use inside vs.At callbacks.
